@@ -174,7 +174,7 @@ func (s subjState) step(in subjIn) (deliv []string, answer int, ns subjState) {
 				emit(sub, n(in.A))
 			}
 			ns.Buf = append(ns.Buf, in.A)
-			if s.BufSize > 0 && len(ns.Buf) > s.BufSize {
+			if s.BufSize >= 0 && len(ns.Buf) > s.BufSize {
 				ns.Buf = ns.Buf[len(ns.Buf)-s.BufSize:]
 			}
 		case "async":
@@ -184,7 +184,7 @@ func (s subjState) step(in subjIn) (deliv []string, answer int, ns subjState) {
 				emit(s.Subs[0], n(in.A))
 			} else {
 				ns.Buf = append(ns.Buf, in.A)
-				if s.BufSize > 0 && len(ns.Buf) > s.BufSize {
+				if s.BufSize >= 0 && len(ns.Buf) > s.BufSize {
 					ns.Buf = ns.Buf[len(ns.Buf)-s.BufSize:]
 				}
 			}
@@ -371,7 +371,7 @@ func init() {
 		Gen: func(g *Gen) *Scn {
 			sc := &Scn{Family: "C10.seq"}
 			sc.Sub = subjectKinds[g.Intn(len(subjectKinds))]
-			sc.SetInt("buf", g.PickInt(0, 1, 2, 3))
+			sc.SetInt("buf", g.PickInt(0, 1, 2, 3, 4)) // 0 = unlimited, k = size k-1 (so size 0 is covered)
 			sc.SetInt("seqmode", 1)
 			sc.Ops = genSubjectOps(g, 1, 10)
 			return sc
@@ -385,7 +385,7 @@ func init() {
 		Gen: func(g *Gen) *Scn {
 			sc := &Scn{Family: "C10.conc"}
 			sc.Sub = subjectKinds[g.Intn(len(subjectKinds))]
-			sc.SetInt("buf", g.PickInt(0, 1, 2, 3))
+			sc.SetInt("buf", g.PickInt(0, 1, 2, 3, 4))
 			sc.SetInt("clients", g.Range(2, 4))
 			sc.Ops = genSubjectOps(g, sc.Int("clients", 2), 12)
 			return sc
@@ -406,19 +406,20 @@ func runC10(e *Env) {
 	kind := sc.Sub
 	buf := sc.Int("buf", 0)
 	var subject ro.Subject[int]
-	mbuf := buf
+	// Ints["buf"]: 0 = unlimited, k>0 = buffer size k-1 (size 0 keeps nothing)
+	mbuf := buf - 1
 	switch kind {
 	case "replay":
 		if buf == 0 {
 			subject = ro.NewReplaySubject[int](ro.ReplaySubjectUnlimitedBufferSize)
 		} else {
-			subject = ro.NewReplaySubject[int](buf)
+			subject = ro.NewReplaySubject[int](buf - 1)
 		}
 	case "unicast":
 		if buf == 0 {
 			subject = ro.NewUnicastSubject[int](ro.UnicastSubjectUnlimitedBufferSize)
 		} else {
-			subject = ro.NewUnicastSubject[int](buf)
+			subject = ro.NewUnicastSubject[int](buf - 1)
 		}
 	default:
 		subject = newSubject(kind, buf)
